@@ -53,7 +53,7 @@ func runC05(r *Result, d *drv.Driver, tier string, seed int64, replay string) {
 	if tier == "thorough" {
 		nValid = 600
 	}
-	r.Rule = fmt.Sprintf("per-call allocation (runtime.MemStats.TotalAlloc delta) of the real Decode on: valid messages; every item position of every message (string, bytes, structure, skipped, fixed) with its declared length replaced by each of {0, 1, 2^16, 2^20, 2^30, 2^31, 2^32-8, 2^32-1}, with and without truncating the input right after that header; random mutations. "+
+	r.Rule = fmt.Sprintf("per-call allocation (runtime.MemStats.TotalAlloc delta) of the real Decode on: valid messages; every item position of every message (string, bytes, structure, skipped, fixed) with its declared length replaced by each of {0, 1, 2^16, 2^20, 2^30, 2^31, 2^32-8, 2^32-1}, with and without truncating the input right after that header, and the same with every enclosing structure's length inflated consistently (so the lying item fits its parents); random mutations. "+
 		"Violation: allocation > %d x input length + %d bytes (the model's linear bound with A = %d). distinct = distinct input; non-trivial = carries a hostile length", allocA, allocB, allocA)
 	types := allDecodeTypes()
 	g := gen.New(seed)
@@ -69,6 +69,24 @@ func runC05(r *Result, d *drv.Driver, tier string, seed int64, replay string) {
 				inputs = append(inputs, decInput{typ: in.typ, data: b, origin: fmt.Sprintf("hostile-len:type%d", nd.Typ)})
 				// the same, with the stream ending right after the lying header (a message of a few bytes)
 				inputs = append(inputs, decInput{typ: in.typ, data: b[:nd.Off+8], origin: fmt.Sprintf("hostile-len-cut:type%d", nd.Typ)})
+				// lengths that agree with each other: every enclosing structure lies as well (so the lying item "fits")
+				if nd.Parent != nil && hl >= 1<<16 {
+					c := append([]byte(nil), b...)
+					up := uint64(hl)
+					for p := nd.Parent; p != nil; p = p.Parent {
+						up += 8
+						if up > 1<<32-8 {
+							up = 1<<32 - 8
+						}
+						binary.BigEndian.PutUint32(c[p.Off+4:], uint32(up))
+					}
+					inputs = append(inputs, decInput{typ: in.typ, data: c, origin: fmt.Sprintf("hostile-chain:type%d", nd.Typ)})
+					cut := nd.Off + 16
+					if cut > len(c) {
+						cut = len(c)
+					}
+					inputs = append(inputs, decInput{typ: in.typ, data: c[:cut], origin: fmt.Sprintf("hostile-chain-cut:type%d", nd.Typ)})
+				}
 			}
 		}
 		if len(inputs) > 40000 && tier != "thorough" {
